@@ -36,13 +36,16 @@ RULE = ("Scenario = (user-object kind x how tensors are held x which require gra
         "functional_call reparametrisation; between operations the caller may rebind a tensor or freeze a Parameter into a "
         "buffer / plain attribute; one scenario in twelve is a dense operator in the exact solver with LAPACK failing once]). One fault-free reference execution counts the N entries "
         "into the user's callees; then one faulted execution per crash point k (quick: k in {1,2,3,N-1,N} + 8 "
-        "drawn; thorough: every k in 1..N) with InjectedFault(Exception) or InjectedAbort(BaseException). "
+        "drawn; thorough: every k in 1..N) with InjectedFault(Exception) or InjectedAbort(BaseException); "
+        "then, when the history makes M > 0 internal dense solves (torch.linalg.solve: exact solver, implicit backward of the root finders, "
+        "eigenpair gradients), up to 3 (quick) / 12 (thorough) more executions in which the j-th of them raises LAPACK's error once "
+        "(xitorch either rescues the call or the error reaches the caller; the state invariants apply in both cases, retry-equals-reference only in the second). "
         "A case is non-trivial iff the fault fired while a substitution was installed (object slots differ from "
         "the originals) or while the debug flag was overridden or inside backward; distinct = distinct "
         "(functional, method, object kind, function kind, phase, debug, substituted?, nest depth, exception class) tuples.")
 ASSUMPTIONS = [
-    "failures are injected where the statement puts them: at evaluations of the user's callee (incl. operator "
-    "products and custom steps), not at arbitrary bytecode boundaries inside xitorch",
+    "failures are injected where the statement puts them - at evaluations of the user's callee (incl. operator "
+    "products and custom steps) - and at one internal seam (torch.linalg.solve failing once), not at arbitrary bytecode boundaries inside xitorch",
     "state is judged on tensor slots (identity, value, requires_grad, Parameter-ness), container shapes and "
     "nn.Module registration order; xitorch's own non-tensor bookkeeping attributes on the object are ignored",
     "which exception class reaches the caller and the grad mode are recorded, not judged",
@@ -650,7 +653,7 @@ def vals_close(a, b):
     return bool(torch.allclose(a, b, rtol=RTOL, atol=ATOL, equal_nan=True))
 
 
-def execute(sc, plan, reference=None, collect=None):
+def execute(sc, plan, reference=None, collect=None, linalg_j=0):
     """execute the scenario's history once. plan: {event k: kind}.
     reference: list of per-op reference values (from the fault-free execution) or None.
     Returns dict(values, N, violations, info)."""
@@ -686,6 +689,20 @@ def execute(sc, plan, reference=None, collect=None):
                              "dbg_override": state["dbg_override"]}
         return tag
     SIM.observers.append(observer)
+
+    class _InternalFailure(FaultyLinalgSolve):
+        """an internal call that usually succeeds - the j-th torch.linalg.solve of the whole history, wherever it is
+        made (exact solver, implicit backward of a root finder, eigenpair gradients) - fails once with LAPACK's error"""
+        def __call__(self_, *a, **kw):
+            if self_.k and self_.n + 1 == self_.k:
+                subst = any(idents(a_) != sn0.ident_tuple() for a_, sn0 in zip(env.actors, init_snaps))
+                info["fired"] = {"k": -self_.k, "kind": "internal_linalg_error", "probe": "torch.linalg.solve",
+                                 "substituted": subst, "in_backward": state["in_bwd"], "debug": bool(is_debug_enabled()),
+                                 "nest_depth": state["nest_depth"], "monitor_depth": len(mon.stack),
+                                 "dbg_override": state["dbg_override"]}
+            return FaultyLinalgSolve.__call__(self_, *a, **kw)
+    internal = _InternalFailure(linalg_j)
+    internal.__enter__()
 
     def check_state(tag, befores, opidx, opname):
         for a, sn in zip(env.actors, befores):
@@ -935,6 +952,11 @@ def execute(sc, plan, reference=None, collect=None):
         if out.raised is not None:
             rec["msg"] = str(out.raised)[:160].replace("\n", " ")
         # ---- I6: after faults stop, the same operation on the same objects gives the reference answer
+        if fired_here and out.raised is None and info["fired"]["kind"] == "internal_linalg_error":
+            # xitorch rescued the failing internal call (regularised retry): the numbers of this and of every later
+            # operation may legitimately differ from the fault-free execution; the state invariants still apply
+            state["no_i6"] = True
+            info["fired"]["rescued"] = True
         if fired_here and out.raised is not None:
             SIM.set_plan({})
             retry = OpOutcome()
@@ -963,7 +985,8 @@ def execute(sc, plan, reference=None, collect=None):
                         viol.append({"inv": "I6.retry_value", "where": "retry", "op": opidx, "opname": opname,
                                      "detail": "fault-free retry on the same objects gives a different result than "
                                                "the fault-free reference execution"})
-        elif reference is not None and out.raised is None and reference[opidx]["raised"] is None and info["fired"] is not None:
+        elif reference is not None and out.raised is None and reference[opidx]["raised"] is None and \
+                info["fired"] is not None and not state.get("no_i6"):
             # operations after the faulted one: same objects, so same answers
             if not vals_close(_detach_vals(out.value), reference[opidx]["value"]):
                 viol.append({"inv": "I6.later_value", "where": "later-op", "op": opidx, "opname": opname,
@@ -1023,6 +1046,8 @@ def execute(sc, plan, reference=None, collect=None):
     for v in viol[nviol_end:]:
         v["ctx"] = "mismatch" if state.get("tainted") else "same"
     mon.uninstall()
+    internal.__exit__()
+    info["linalg_calls"] = internal.n
     set_debug_mode(False)
     info["N"] = SIM.seq
     info["counters"] = dict(SIM.counters)
@@ -1158,6 +1183,39 @@ def run(cs, cfg):
             add_viol(v, "%s@%d in %s" % (kind, k, fired["probe"]), fired)
         if len(decoded["faulted"]) < 6:
             decoded["faulted"].append({"k": k, "kind": kind, "fired": fired, "ops": r["info"]["ops"],
+                                       "violations": [v["inv"] for v in r["violations"]]})
+    # ---- an internal failure: the j-th dense solve of the history raises LAPACK's error once
+    M = ref["info"].get("linalg_calls", 0)
+    njs = 0 if M == 0 else (min(M, 3) if cfg["crash_points"] == "subset" else min(M, 12))
+    js = sorted(set(1 + cs.draw(M, "linalg_j") for _ in range(njs)))
+    decoded["internal_failure_points"] = js
+    for j in js:
+        r = execute(sc, {}, reference=ref["values"], linalg_j=j)
+        evals += 1
+        events += r["N"]
+        digests.append(r["info"]["digest"])
+        fired = r["info"]["fired"]
+        if fired is None:
+            cnt("fault_not_reached")
+            continue
+        cnt("fault.internal_linalg_error")
+        if fired.get("rescued"):
+            cnt("reach.internal_failure_rescued_by_xitorch")
+        elif fired.get("reached_caller_as") is not None:
+            cnt("reach.internal_failure_reached_the_caller")
+            cnt("fault.retry_after_fault")
+        if fired["substituted"]:
+            cnt("reach.internal_failure_while_substituted")
+        if fired["in_backward"]:
+            cnt("reach.internal_failure_in_backward")
+        F = functional_label(sc, fired.get("op", 0))
+        cases.add("|".join(str(x) for x in (F[0], F[1], kind_label(sc), sc["fkind"],
+                                            "bwd" if fired["in_backward"] else "fwd", fired["debug"],
+                                            fired["substituted"], fired["nest_depth"], "internal_linalg_error")))
+        for v in r["violations"]:
+            add_viol(v, "internal_linalg_error@solve#%d" % j, fired)
+        if len(decoded["faulted"]) < 8:
+            decoded["faulted"].append({"j": j, "kind": "internal_linalg_error", "fired": fired, "ops": r["info"]["ops"],
                                        "violations": [v["inv"] for v in r["violations"]]})
     # one digest for the run
     import hashlib
